@@ -182,6 +182,24 @@ def name_packages(sc, reserved, rng, quick):
                 pkg.defs.append({"kind": "alias", "name": t, "tparams": [], "type": ("vec", P("float32"), None)})
         pkg.defs.append({"kind": "protocol", "name": "UsesThem", "steps": [(f"s{i}", ("named", t, []), i % 2 == 0) for i, t in enumerate(chunk)]})
         yield Job(f"names:types-{ci}", sc.path(f"n-types-{ci}"), pkg=pkg, manifest_extra=OPTION_SETS[2][1], compile_cpp=True, ndjson=True, namespace="TypeNames")
+    # names that differ only in capitalization become one member after case conversion: either the package is rejected, or
+    # the generated code must still be well formed
+    pairs = [("fooBar", "fooBAR"), ("aB", "a_b"), ("xY1", "xy1") if False else ("valueOne", "valueONE")]
+    for k, (a, b) in enumerate(pairs):
+        if not re.fullmatch(r"[a-z][a-zA-Z0-9]*", a) or not re.fullmatch(r"[a-z][a-zA-Z0-9]*", b):
+            continue
+        pkg = modelgen.Package("Collide")
+        pkg.defs.append({"kind": "record", "name": "R", "tparams": [], "fields": [(a, P("int32")), (b, P("string"))]})
+        pkg.defs.append({"kind": "protocol", "name": "P", "steps": [("s", ("named", "R", []), True)]})
+        yield Job(f"names:collide-fields-{k}", sc.path(f"n-collide-f{k}"), pkg=pkg, manifest_extra=OPTION_SETS[2][1], compile_cpp=True, ndjson=True, namespace="Collide")
+        pkg = modelgen.Package("Collide")
+        pkg.defs.append({"kind": "protocol", "name": "P", "steps": [(a, P("int32"), False), (b, P("string"), True)]})
+        yield Job(f"names:collide-steps-{k}", sc.path(f"n-collide-s{k}"), pkg=pkg, manifest_extra=OPTION_SETS[2][1], compile_cpp=True, ndjson=True, namespace="Collide")
+        pkg = modelgen.Package("Collide")
+        pkg.defs.append({"kind": "enum", "name": "E", "flags": False, "base": None, "auto": False, "values": [(a, 0), (b, 1)]})
+        pkg.defs.append({"kind": "record", "name": "R", "tparams": [], "fields": [("x", P("int32"))], "computed": [(a, "x + 1"), (b, "x + 2")]})
+        pkg.defs.append({"kind": "protocol", "name": "P", "steps": [("e", ("named", "E", []), False), ("r", ("named", "R", []), True)]})
+        yield Job(f"names:collide-symbols-computed-{k}", sc.path(f"n-collide-e{k}"), pkg=pkg, manifest_extra=OPTION_SETS[2][1], compile_cpp=True, ndjson=True, namespace="Collide")
     for ns in (["Class", "Std", "Numpy", "Yardl", "Namespace"] if not quick else ["Class", "Yardl"]):
         pkg = modelgen.Package(ns)
         pkg.defs.append({"kind": "record", "name": "R", "tparams": [], "fields": [("a", P("int32"))]})
@@ -363,6 +381,19 @@ def _check_python(out_py, namespace):
             "            except (NameError, AttributeError, ImportError) as e:\n                raise RuntimeError(f'default construction of {m}.{name}: {type(e).__name__}: {e}')\n"
             "            except Exception:\n                pass\n")
     p = subprocess.run(["python3-vt", "-c", code, out_py] + mods, stdout=subprocess.PIPE, stderr=subprocess.PIPE, timeout=300)
+    if p.returncode == 0:
+        # static: every name the generated modules refer to is bound (a NameError in a line that importing does not run)
+        for m in mods:
+            u = subprocess.run(["python3-vt", os.path.join(vlib.HARNESS, "py", "pyundef.py"), os.path.join(out_py, m), "types.py", "protocols.py", "binary.py",
+                                "ndjson.py", "__init__.py"], stdout=subprocess.PIPE, stderr=subprocess.PIPE, timeout=120)
+            try:
+                undefined = json.loads(u.stdout)
+            except Exception:   # noqa: BLE001
+                return {"rc": 1, "out": "NameError: static name check crashed: " + u.stderr.decode(errors="replace")[-800:], "modules": mods}
+            if undefined:
+                first = undefined[0]
+                return {"rc": 1, "out": f"NameError: name '{first['name']}' is not defined (static: {m}/{first['module']} line {first['line']}, scope {first['scope']}); "
+                                        + json.dumps(undefined[:8]), "modules": mods}
     return {"rc": p.returncode, "out": (p.stdout + p.stderr).decode(errors="replace")[-2500:], "modules": mods}
 
 
@@ -394,7 +425,7 @@ def judge(report, j, res, seed):
         return
     if res["stage"] == "generate":
         sig = _sig(res["out"])
-        if j.kind.startswith("names:") and "is reserved" in res["out"]:
+        if j.kind.startswith("names:") and ("is reserved" in res["out"] or "are not distinct when converted" in res["out"]):
             report.count("names.rejected-as-reserved")
             return
         report.violation(f"generate-failed:{sig}", dict(replay, rc=res["rc"], output=res["out"]), "yardl generate failed on a package it accepts" if "panic" in res["out"] or res["rc"] not in (1,) else "")
